@@ -23,7 +23,8 @@ ASSUMPTIONS = ["LatencyAtQuantileMS is computed by the model itself (Model/Hist.
                "histogram of memmetrics, recordLatency in microseconds, the result in whole milliseconds; C18_hist_counts, C18_hist_class, "
                "C18_quantile_rank(_rolling), C18_rolling_window, C18_rolling_recent, C18_latency_oracle_refines) except for ONE float step, "
                "countAtPercentile = int64(q/100*float64(total)+0.5): the driver computes it in IEEE doubles (same operations, same order), the "
-               "theorems use the exact rational floor(q*total/100 + 1/2) (C18_quantile_count); that the two agree is assumed, not modelled. The q= "
+               "theorems use the exact rational floor(q*total/100 + 1/2) (C18_quantile_count); that the two agree is assumed, not modelled (they are known to "
+               "differ at some exact half-integer ties, e.g. q = 33.3 with total = 500: the doubles give 166, the real number 167). The q= "
                "values on the op lines are the implementation's (a shadow memmetrics.RTMetrics fed the same (code, latency) at the same frozen "
                "instants and reset at every observed trip; the harness re-checks them on every run): the driver decides with its own values and "
                "prints hist-mismatch when they differ from q= (a divergence). The monitor trusts neither: from the raw (time, latency) log it re-derives the latencies recorded since the last trip that are still in the "
